@@ -71,6 +71,37 @@ func main() {
 		for _, id := range propOrder {
 			fmt.Println(id, strings.Join(props[id].Rules, " "))
 		}
+	case "gram":
+		p, err := Load(*flagRepo, nil, nil, true)
+		if err != nil {
+			fmt.Println(err)
+			os.Exit(1)
+		}
+		g, err := p.grammar()
+		if err != nil {
+			fmt.Println(err)
+			os.Exit(1)
+		}
+		fmt.Printf("rules=%d conflicts=%d/%d unknown=%v setPred=%v setResult=%v\n", len(g.Rules), g.SR, g.RR, g.Unknown, g.SetPredIn, g.SetResIn)
+		var nts []string
+		for nt := range g.Vals {
+			nts = append(nts, nt)
+		}
+		sort.Strings(nts)
+		for _, nt := range nts {
+			v := g.Vals[nt]
+			fmt.Printf("%s: nodes=%v head=%v tail=%v enums=%v stale=%v\n", nt, p.shapeStrings(v.Nodes), p.shapeStrings(v.Head), p.shapeStrings(v.Tail), len(v.Enums), v.Stale)
+		}
+		fmt.Println("ROOT:", p.shapeStrings(g.RootShapes))
+		fmt.Println("NEXT:", p.shapeStrings(g.NextShapes))
+		var sk []string
+		for k, v := range g.Slots {
+			sk = append(sk, fmt.Sprintf("%s.%s = %v", p.shapeString(NShape{T: k.T, Enum: k.Enum}), k.Field.Name(), p.shapeStrings(v)))
+		}
+		sort.Strings(sk)
+		for _, s := range sk {
+			fmt.Println("SLOT", s)
+		}
 	case "manifest":
 		fmt.Println(mustJSON(manifest()))
 	case "control":
